@@ -10,6 +10,16 @@ class HarnessError(Exception):
     """Something is wrong with the harness itself (never a VIOLATION)."""
 
 
+class LibraryMisbehaved(Exception):
+    """The library returned something the harness cannot even process (e.g. None
+    where a path is promised).  Converted into a violation by the driver."""
+
+    def __init__(self, clause, **detail):
+        super().__init__(clause)
+        self.clause = clause
+        self.detail = detail
+
+
 class Violation:
     def __init__(self, prop, clause, detail=None):
         self.prop = prop
@@ -44,7 +54,7 @@ class RunResult:
     def note(self, *parts):
         """Count a distinct non-trivial case."""
         h = hashlib.blake2b(repr(parts).encode("utf-8", "surrogatepass"), digest_size=8).digest()
-        self.distinct.add(h)
+        self.distinct.add(int.from_bytes(h, "big"))
 
     def log(self, *parts):
         self.digest.update(repr(parts).encode("utf-8", "surrogatepass"))
